@@ -25,6 +25,7 @@ type Options struct {
 	Verbose  bool
 	Only     string // regexp on obligation names (debugging)
 	KeepSMT  bool
+	NoEvidence bool
 }
 
 // Obligation aggregates the per-path queries of one named proof obligation.
